@@ -41,6 +41,8 @@ pub fn build_response(code: &str, ctype: &str, headers: &str, body: &str) -> Res
     let mut r = Response::new(code.parse().unwrap());
     if let Some(h) = ctype.strip_prefix("S:") {
         r = r.with_type(ContentType::String(String::from_utf8(unhex(h)).unwrap()));
+    } else if let Some(h) = ctype.strip_prefix("T:") {
+        r = r.with_type(ContentType::Str(Box::leak(String::from_utf8(unhex(h)).unwrap().into_boxed_str())));
     } else if let Some(k) = ctype.strip_prefix("K:") {
         r = r.with_type(match k {
             "Css" => ContentType::Css, "Csv" => ContentType::Csv, "EventStream" => ContentType::EventStream,
@@ -226,6 +228,21 @@ pub fn run(ctx: &mut Ctx) {
         let ws: Vec<usize> = match rng.below(4) { 0 => vec![], 1 => vec![1], _ => (0..rng.range(1, 4)).map(|_| rng.range(1, 5000) as usize).collect() };
         let pend = if rng.chance(1, 2) { rng.range(2, 6) } else { 0 };
         case(ctx, "c06", &[&code.to_string(), &ct, &hs, &body, if rng.chance(1, 2) { "1" } else { "0" }, &sizes_str(&ws), "-", &pend.to_string()]);
+    }
+    // (3) custom content types (owned and static strings) whose media type is one the library knows, with other parameters:
+    //     what was set is what must be on the wire
+    let media = ["text/css", "text/csv", "text/event-stream", "application/x-www-form-urlencoded", "image/gif", "text/html", "text/javascript",
+        "image/jpeg", "application/json", "text/markdown", "multipart/form-data", "application/octet-stream", "application/pdf", "text/plain",
+        "image/png", "image/svg+xml", "application/wasm"];
+    for m in media {
+        for suffix in ["", "; charset=UTF-8", "; charset=ISO-8859-1", ";boundary=XyZ123", "; profile=x; q=1"] {
+            for kind in ["S", "T"] {
+                idx += 1;
+                if !ctx.mine(idx) { continue; }
+                let text = if suffix == ";boundary=XyZ123" && m.starts_with("text/h") { m.to_uppercase() } else { format!("{m}{suffix}") };
+                case(ctx, "c06", &["200", &format!("{kind}:{}", hex(text.as_bytes())), "", &format!("V:{}", enc(b"body")), "0", "", "-", "0"]);
+            }
+        }
     }
 }
 
